@@ -77,7 +77,7 @@ def main():
         })
     m = {
         "version": 1,
-        "setup_cmd": "cd /verif/harness && ( [ -f Cargo.lock ] || cp /repo/Cargo.lock Cargo.lock ) && CARGO_NET_OFFLINE=true cargo build --offline --profile verif && CARGO_NET_OFFLINE=true cargo build --offline --profile release && CARGO_NET_OFFLINE=true CARGO_TARGET_DIR=/verif/harness/target-b64 cargo build --offline --profile verif --features b64bytes,testable && CARGO_NET_OFFLINE=true cargo build --offline --profile dev0",
+        "setup_cmd": "cd /verif/harness && ( [ -f Cargo.lock ] || cp /repo/Cargo.lock Cargo.lock ) && CARGO_NET_OFFLINE=true cargo build --offline --profile verif && CARGO_NET_OFFLINE=true cargo build --offline --profile release && CARGO_NET_OFFLINE=true CARGO_TARGET_DIR=/verif/harness/target-b64 cargo build --offline --profile verif --features b64bytes,testable && CARGO_NET_OFFLINE=true cargo build --offline --profile dev0 && ( [ -f plain/Cargo.lock ] || cp Cargo.lock plain/Cargo.lock ) && CARGO_NET_OFFLINE=true CARGO_TARGET_DIR=/verif/harness/target-plain cargo build --offline --profile verif --manifest-path plain/Cargo.toml",
         "hooks": {
             "guard": "passkey_rs_verif",
             "enable": "none needed: all observation points are caller-supplied traits (CredentialStore, UserValidationMethod, EffectiveTLDProvider) and public return values; RUSTFLAGS=--cfg passkey_rs_verif is reserved and unused",
